@@ -437,7 +437,27 @@ impl LineProgram {
         // Advance the line, address, and operation index.
         let line_base = i64::from(self.line_encoding.line_base) as u64;
         let line_range = u64::from(self.line_encoding.line_range);
-        let line_advance = self.row.line as i64 - self.prev_row.line as i64;
+        // The advance may not fit in an `i64` for line numbers of 2^63 or more;
+        // emit extra `DW_LNS_advance_line` instructions until it does.
+        let mut prev_line = self.prev_row.line;
+        let line_advance = loop {
+            if self.row.line >= prev_line {
+                if let Ok(advance) = i64::try_from(self.row.line - prev_line) {
+                    break advance;
+                }
+                self.instructions
+                    .push(LineInstruction::AdvanceLine(i64::MAX));
+                prev_line += i64::MAX as u64;
+            } else {
+                let decrement = prev_line - self.row.line;
+                if decrement <= i64::MAX as u64 {
+                    break -(decrement as i64);
+                }
+                self.instructions
+                    .push(LineInstruction::AdvanceLine(i64::MIN));
+                prev_line -= 1 << 63;
+            }
+        };
         let op_advance = self.op_advance();
 
         // Default to special advances of 0.
